@@ -9,6 +9,9 @@ look alike to the rule:
               are left alone
   positional  keyword arguments that directly continue the positional ones become positional
               (all same-named repo functions must agree on the parameter order)
+  polarity    `if not c: A else: B` -> `if c: B else: A`; `if c: return/continue` + REST at the
+              top of a function / loop body -> `if not c: REST`; `if c: x = A else: x = B` ->
+              `x = A if c else B` (same for a pair of returns)
   aliases     `a = x.y.z` (single binding, pure attribute path) is substituted into its uses
   temps       `t = <expr>` used exactly once, in the next statement, is substituted there
   comps       `X = []` + append-only `for` loop becomes `X = [... for ...]` (also set / dict)
@@ -442,6 +445,112 @@ def loops_to_comps(fnode):
 
 
 # --------------------------------------------------------------------------------------------
+# branch polarity, guard form, conditional values
+
+def _neg(t):
+  if isinstance(t, ast.UnaryOp) and isinstance(t.op, ast.Not):
+    return t.operand
+  return ast.copy_location(ast.UnaryOp(op=ast.Not(), operand=t), t)
+
+
+def _strip_double_not(t):
+  while isinstance(t, ast.UnaryOp) and isinstance(t.op, ast.Not) and \
+      isinstance(t.operand, ast.UnaryOp) and isinstance(t.operand.op, ast.Not):
+    t = t.operand.operand
+  return t
+
+
+def normalise_polarity(fnode):
+  """`if not c: A else: B` -> `if c: B else: A` (also conditional expressions); `not not c` in a
+  test position -> `c`."""
+  changed = False
+  for n in ast.walk(fnode):
+    if isinstance(n, (ast.If, ast.IfExp, ast.While)):
+      t = _strip_double_not(n.test)
+      if t is not n.test:
+        n.test = t
+        changed = True
+    if isinstance(n, ast.If) and n.orelse and isinstance(n.test, ast.UnaryOp) and \
+        isinstance(n.test.op, ast.Not):
+      n.test, n.body, n.orelse = n.test.operand, n.orelse, n.body
+      changed = True
+    elif isinstance(n, ast.IfExp) and isinstance(n.test, ast.UnaryOp) and \
+        isinstance(n.test.op, ast.Not):
+      n.test, n.body, n.orelse = n.test.operand, n.orelse, n.body
+      changed = True
+    elif isinstance(n, ast.comprehension):
+      new = [_strip_double_not(t) for t in n.ifs]
+      if any(a is not b for a, b in zip(new, n.ifs)):
+        n.ifs = new
+        changed = True
+  return changed
+
+
+def _is_bare_return(s):
+  return isinstance(s, ast.Return) and (s.value is None or (isinstance(s.value, ast.Constant) and
+                                                          s.value.value is None))
+
+
+def nest_early_exits(fnode):
+  """`if c: return` + REST at the top level of the function body, and `if c: continue` + REST at
+  the top level of a loop body, become `if not c: REST`."""
+  changed = False
+  def fix(block, is_exit):
+    nonlocal changed
+    i = 0
+    while i < len(block) - 1:
+      s = block[i]
+      if isinstance(s, ast.If) and not s.orelse and len(s.body) == 1 and is_exit(s.body[0]):
+        new = ast.copy_location(ast.If(test=_neg(s.test), body=block[i + 1:], orelse=[]), s)
+        block[i:] = [new]
+        changed = True
+        fix(new.body, is_exit)
+        return
+      i += 1
+  fix(fnode.body, _is_bare_return)
+  for block in iter_blocks(fnode):
+    for s in block:
+      if isinstance(s, (ast.For, ast.AsyncFor, ast.While)):
+        fix(s.body, lambda x: isinstance(x, ast.Continue))
+  return changed
+
+
+def conditional_values(fnode):
+  """`if c: x = A else: x = B` -> `x = A if c else B`; `if c: return A [else:] return B` ->
+  `return A if c else B`."""
+  changed = False
+  for block in iter_blocks(fnode):
+    i = 0
+    while i < len(block):
+      s = block[i]
+      if isinstance(s, ast.If) and len(s.body) == 1:
+        a = s.body[0]
+        b = s.orelse[0] if len(s.orelse) == 1 else None
+        if _is_simple_assign(a) and b is not None and _is_simple_assign(b) and \
+            a.targets[0].id == b.targets[0].id:
+          v = ast.IfExp(test=s.test, body=a.value, orelse=b.value)
+          new = ast.Assign(targets=[a.targets[0]], value=v)
+          ast.copy_location(v, s)
+          block[i] = ast.copy_location(new, s)
+          changed = True
+        elif isinstance(a, ast.Return) and a.value is not None:
+          if b is not None and isinstance(b, ast.Return) and b.value is not None:
+            v = ast.IfExp(test=s.test, body=a.value, orelse=b.value)
+            ast.copy_location(v, s)
+            block[i] = ast.copy_location(ast.Return(value=v), s)
+            changed = True
+          elif not s.orelse and i + 1 < len(block) and isinstance(block[i + 1], ast.Return) and \
+              block[i + 1].value is not None:
+            v = ast.IfExp(test=s.test, body=a.value, orelse=block[i + 1].value)
+            ast.copy_location(v, s)
+            block[i] = ast.copy_location(ast.Return(value=v), s)
+            del block[i + 1]
+            changed = True
+      i += 1
+  return changed
+
+
+# --------------------------------------------------------------------------------------------
 # keyword -> positional
 
 class _Signatures(object):
@@ -842,15 +951,25 @@ def anchored_names():
 
 
 class View(object):
-  def __init__(self, name, canon=False, inline=False):
+  """A set of behaviour-preserving transformations applied before a rule reads a function."""
+  def __init__(self, name, steps=(), inline=False):
     self.name = name
-    self.canon = canon
+    self.steps = tuple(steps)     # names of the canonicalising steps, see STEPS
     self.inline = inline
 
+  @property
+  def canon(self):
+    return bool(self.steps)
 
+
+ALL_STEPS = ("positional", "exits", "polarity", "aliases", "temps", "comps", "conditionals")
 PLAIN = View("plain")
-CANON = View("canon", canon=True)
-INLINED = View("inlined", canon=True, inline=True)
+LIGHT = View("light", steps=("aliases", "comps"))
+CANON = View("canon", steps=ALL_STEPS)
+INLINED = View("inlined", steps=ALL_STEPS, inline=True)
+INLINED_ONLY = View("inlined-only", inline=True)
+INLINED_LIGHT = View("inlined-light", steps=("aliases", "comps"), inline=True)
+VIEWS = [PLAIN, CANON, LIGHT, INLINED, INLINED_ONLY, INLINED_LIGHT]
 
 
 class VWorld(World):
@@ -875,17 +994,19 @@ class VWorld(World):
         self._inliner = Inliner(self.repo, anchored_names())
       self._inliner.inline(node, fi)
     if v.canon:
-      if self._sigs is None:
-        self._sigs = _Signatures(self.repo)
-      keywords_to_positional(node, self._sigs)
+      if "positional" in v.steps:
+        if self._sigs is None:
+          self._sigs = _Signatures(self.repo)
+        keywords_to_positional(node, self._sigs)
       scopes = [node] + [x for x in ast.walk(node)
                          if isinstance(x, (ast.FunctionDef, ast.AsyncFunctionDef)) and x is not node]
+      table = (("exits", nest_early_exits), ("polarity", normalise_polarity),
+               ("aliases", expand_aliases), ("temps", forward_temps), ("comps", loops_to_comps),
+               ("conditionals", conditional_values))
       for sc in scopes:
-        for _ in range(6):
-          a = expand_aliases(sc)
-          b = forward_temps(sc)
-          c = loops_to_comps(sc)
-          if not (a or b or c):
+        for _ in range(8):
+          ch = [f(sc) for (nm, f) in table if nm in v.steps]
+          if not any(ch):
             break
     ast.fix_missing_locations(node)
     nfi = FuncInfo(fi.module, fi.cls, node, fi.qualname, fi.parent)
